@@ -655,6 +655,54 @@ def _amax(ctx, a):
 # =======================================================================================
 # C15: resizing operations keep the spectrum well-formed; binning
 
+
+_NATIVE_PRE = ['import json, warnings', 'warnings.simplefilter("ignore")', 'import numpy as np', 'from lentil.radiometry import Spectrum',
+               'rng = np.random.default_rng(7)', 'obs = {}', 'bad = []']
+
+
+def _native(lines):
+    return '\n'.join(_NATIVE_PRE + lines + ['print(json.dumps({"violated": bool(bad), "failing_cases": bad[:3]}))'])
+
+
+def native_trim(obname, model):
+    """trim on 200 random spectra and tolerances against a plain numpy statement of the clause."""
+    return _native([
+        'for t in range(200):',
+        '    n = int(rng.integers(2, 9)); w = np.cumsum(rng.uniform(0.5, 3, n)) + 400; v = rng.uniform(0, 1, n) * (rng.uniform(size=n) > 0.3)',
+        '    tol = float(rng.choice([0.0, 1e-4, 0.2, 0.5, 0.9]))',
+        '    s = Spectrum(w.copy(), v.copy(), "nm")',
+        '    if not v.any():',
+        '        s.trim(tol); ok = np.array_equal(s.wave, w) and np.array_equal(s.value, v)',
+        '    else:',
+        '        idx = np.where(v / v.max() > tol)[0]; f, l = idx[0], idx[-1]',
+        '        s.trim(tol); ok = np.array_equal(s.wave, w[f:l + 1]) and np.array_equal(s.value, v[f:l + 1])',
+        '    if not ok: bad.append({"wave": w.tolist(), "value": v.tolist(), "tol": tol, "kept": np.asarray(s.wave).tolist()})'])
+
+
+def native_crop(obname, model):
+    return _native([
+        'for t in range(300):',
+        '    n = int(rng.integers(2, 9)); w = np.cumsum(rng.uniform(0.5, 3, n)) + 400; v = rng.uniform(0, 1, n)',
+        '    i, j = sorted(rng.integers(0, n, 2)); eps = rng.choice([0.0, 1e-9, -1e-9], 2)',
+        '    lo, hi = w[i] + eps[0], w[j] + eps[1]; keep = (w >= lo) & (w <= hi)',
+        '    if keep.sum() < 1: continue',
+        '    s = Spectrum(w.copy(), v.copy(), "nm"); s.crop(lo, hi)',
+        '    if not (np.array_equal(s.wave, w[keep]) and np.array_equal(s.value, v[keep])):',
+        '        bad.append({"wave": w.tolist(), "lo": float(lo), "hi": float(hi), "kept": np.asarray(s.wave).tolist()})'])
+
+
+def native_pad(obname, model):
+    return _native([
+        'for t in range(200):',
+        '    n = int(rng.integers(2, 9)); w = np.cumsum(rng.uniform(0.5, 3, n)) + 400; v = rng.uniform(0, 1, n)',
+        '    lo, hi, d = w[0] - rng.uniform(0.1, 9), w[-1] + rng.uniform(0.1, 9), rng.uniform(0.4, 2.5); a, b = rng.uniform(-1, 1, 2)',
+        '    s = Spectrum(w.copy(), v.copy(), "nm"); s.pad((lo, hi), sampling=d, values=(a, b))',
+        '    nl = int(np.ceil((w[0] - lo) / d)); nr = int(np.ceil((hi - w[-1]) / d))',
+        '    ok = s.wave.shape == s.value.shape == (nl + n + nr,) and np.array_equal(s.wave[nl:nl + n], w) and np.array_equal(s.value[nl:nl + n], v)',
+        '    ok = ok and np.all(s.value[:nl] == a) and np.all(s.value[nl + n:] == b) and np.all(np.diff(s.wave) > 0) and np.isclose(s.wave[0], lo) and np.isclose(s.wave[-1], hi)',
+        '    if not ok: bad.append({"wave": w.tolist(), "lo": float(lo), "hi": float(hi), "sampling": float(d), "got_wave": np.asarray(s.wave).tolist()[:12]})'])
+
+
 def c15_lemmas():
     out = []
 
@@ -848,6 +896,7 @@ def c15_lemmas():
         with_hyp(ctx, [k >= 0, k < S.z(n1)],
                  lambda: ctx.oblige('C15::Spectrum.trim.retained_samples_unaltered',
                                     S.and_(S.eq(w1.at((k,)), w0.at((S.add(f, k),))), S.eq(v1.at((k,)), v0.at((S.add(f, k),))))))
+    trim_lemma.native_replay = native_trim
     out.append(('C15::trim', trim_lemma))
 
     def crop_lemma(ctx):
@@ -880,6 +929,7 @@ def c15_lemmas():
                                                   S.z(S.truth(sel(i))) == S.z(inside)))
             with_hyp(ctx, inr + [S.z(S.truth(sel(i)))],
                      lambda: ctx.oblige('C15::Spectrum.crop.retained_samples_unaltered[%s]' % what, S.eq(val(i), x0.at((i,)))))
+    crop_lemma.native_replay = native_crop
     out.append(('C15::crop', crop_lemma))
 
     def pad_lemma(ctx):
@@ -912,6 +962,7 @@ def c15_lemmas():
                                                               S.eq(v1.at((S.add(S.add(nl, n), k),)), b)))
         ctx.oblige('C15::Spectrum.pad.grid_starts_at_lo_and_ends_at_hi',
                    z3.And(S.z(S.eq(w1.at((0,)), lo)), S.z(S.eq(w1.at((S.sub(w1.shape[0], 1),)), hi))))
+    pad_lemma.native_replay = native_pad
     out.append(('C15::pad', pad_lemma))
     return out
 
